@@ -266,7 +266,7 @@ PROPS = {
         "package": "check-k",
         "bin": "check-k",
         "design_ref": "§4, §7 C01",
-        "technique": "deterministic simulation with fault injection and a memory/descriptor ledger: the real runtime and drivers on the simulated io_uring kernel; generated actors start receive / vectored receive / pipe read / multishot and managed receive / zero-copy send / accept / positional file I/O / open / blocking-pool operations with instrumented buffers and abandon them by a generated route (task drop, cancel token, timeout, nothing) at a generated instant while the awaited event comes at a generated instant or never, and the whole runtime may be dropped at a generated instant with everything in flight; the simulated kernel registers with the process's allocator every user memory range a pending operation may still touch (and the provided-buffer ring), so a free or move of such memory is reported when it happens, freed blocks are quarantined and checksummed (write-after-free), close() is interposed (descriptor closed under a pending operation), the descriptor table is compared before/after, instrumented buffers count their drops, and a zero-copy send's buffer may come back only after the kernel's notification; choice-sequence minimisation and replay; process crashes reported with a from-seed replay",
+        "technique": "deterministic simulation with fault injection and a memory/descriptor ledger: the real runtime and drivers on the simulated io_uring kernel; generated actors start receive / vectored receive / pipe read / multishot and managed receive / zero-copy send / accept / a listener's incoming() stream dropped with connections queued / positional file I/O / open / blocking-pool operations with instrumented buffers and abandon them by a generated route (task drop, cancel token, timeout, nothing) at a generated instant while the awaited event comes at a generated instant or never, and the whole runtime may be dropped at a generated instant with everything in flight; the simulated kernel registers with the process's allocator every user memory range a pending operation may still touch (and the provided-buffer ring), so a free or move of such memory is reported when it happens, freed blocks are quarantined and checksummed (write-after-free), close() is interposed (descriptor closed under a pending operation), the descriptor table is compared before/after, instrumented buffers count their drops, and a zero-copy send's buffer may come back only after the kernel's notification; choice-sequence minimisation and replay; process crashes reported with a from-seed replay",
         "tiers": {
             "quick": {"runs": 250_000, "time_limit_s": 60},
             "thorough": {"runs": 60_000_000, "time_limit_s": 1500},
@@ -291,7 +291,7 @@ PROPS = {
         "package": "check-k",
         "bin": "check-k",
         "design_ref": "§4, §7 C02",
-        "technique": "deterministic simulation with fault injection and a kernel-side ledger: the real runtime and drivers on the simulated io_uring kernel; generated lanes run side by side (concurrent reads on one pipe or Unix socket, concurrent writes on one Unix socket, positional reads/writes on disjoint regions of one file, concurrent metadata calls on files of different lengths, blocking-pool jobs) while the peers' data arrives at generated instants and the kernel decides which pending operation completes when, out of order, with short counts, through submission/completion queues of 1..16 entries (overflow, bursts, lazy discovery, interrupted waits, partial submits); the simulated kernel records for every completion the buffer address, result, a digest of the bytes it moved, its position in the completion order and its time; oracles: one outcome per operation, each outcome equals the ledger's entry for the operation that carried that buffer (count, bytes, buffer identity), bytes per descriptor in kernel completion order are the peer's stream, every lane ends, and an operation finished by the kernel is observed by the program within 300 µs of simulated time; choice-sequence minimisation and replay",
+        "technique": "deterministic simulation with fault injection and a kernel-side ledger: the real runtime and drivers on the simulated io_uring kernel; generated lanes run side by side (concurrent reads on one pipe or Unix socket, concurrent writes on one Unix socket, positional reads/writes on disjoint regions of one file, concurrent metadata calls on files of different lengths, blocking-pool jobs, two descriptors of one socket with a read each, a multishot read with a pausing consumer, a hand-over of a pending read to another task, a lane producing a descriptor event in every turn of the loop) while the peers' data arrives at generated instants and the kernel decides which pending operation completes when, out of order, with short counts, through submission/completion queues of 1..16 entries (overflow, bursts, lazy discovery, interrupted waits, partial submits); the simulated kernel records for every completion the buffer address, result, a digest of the bytes it moved, its position in the completion order and its time; oracles: one outcome per operation, each outcome equals the ledger's entry for the operation that carried that buffer (count, bytes, buffer identity), bytes per descriptor in kernel completion order are the peer's stream, every lane ends, and an operation finished by the kernel is observed by the program within 300 µs of simulated time; choice-sequence minimisation and replay",
         "tiers": {
             "quick": {"runs": 400_000, "time_limit_s": 60},
             "thorough": {"runs": 100_000_000, "time_limit_s": 1500},
@@ -314,7 +314,7 @@ PROPS = {
         "package": "check-k",
         "bin": "check-k",
         "design_ref": "§4, §7 C05",
-        "technique": "deterministic simulation with fault injection: the real compio runtime, cancel tokens, ext wakers and io_uring driver on the simulated io_uring kernel and clock; generated sets of never-ready operations (recv on silent Unix sockets incl. several on one descriptor, pipe reads, accepts, multishot receives) each cancelled by a generated route (task drop, token, token fired before registration, fail-fast token, timeout) at a generated instant, neighbours that must still get their own data, data racing with the cancel; kernel faults (tiny submission/completion rings, lazy and reordered completions, early EINTR returns, partial submits); promptness, honesty, locality, quiescence (nothing left pending in the kernel) and blocked-forever oracles; choice-sequence minimisation and replay",
+        "technique": "deterministic simulation with fault injection: the real compio runtime, cancel tokens, ext wakers and io_uring driver on the simulated io_uring kernel and clock; generated sets of never-ready operations (recv on silent Unix sockets incl. several on one descriptor, pipe reads, accepts, multishot receives, readiness waits), bare or wrapped in another combinator, each cancelled by a generated route (task drop, token, token fired before registration, fail-fast token, timeout, or the issuing task itself firing the token after polling the operation once) at a generated instant, neighbours that must still get their own data, data racing with the cancel or arriving at its very instant (cancel after completion must be harmless); kernel faults (tiny submission/completion rings, lazy and reordered completions, early EINTR returns, partial submits); promptness, honesty, locality, quiescence (nothing left pending in the kernel) and blocked-forever oracles; choice-sequence minimisation and replay",
         "tiers": {
             "quick": {"runs": 400_000, "time_limit_s": 60},
             "thorough": {"runs": 100_000_000, "time_limit_s": 1500},
@@ -338,7 +338,7 @@ PROPS = {
         "package": "check-k",
         "bin": "check-k",
         "design_ref": "§4, §7 C07",
-        "technique": "deterministic simulation with fault injection: the real runtime, drivers and buffer pool (io_uring provided-buffer ring on the simulated kernel, fallback pool on the polling driver); generated readers on pipes, Unix and TCP streams, UDP sockets and files run programs of managed reads, multishot streams dropped after a generated number of items and managed reads abandoned by drop / token / timeout around the arrival of their data, holding every buffer they get for a generated time; pool sizes 1..16, buffer lengths 8..64; kernel faults (reordered, lazy and interrupted completions, tiny rings, CQ overflow, multishot termination, short transfers); oracles: live handles never overlap, held bytes never change, the simulated kernel never selects a buffer the program holds, received bytes are the next unread part of the peer's stream, and after everything was released exactly pool-size buffers are obtainable and one more request fails with an error within 20 ms; choice-sequence minimisation and replay",
+        "technique": "deterministic simulation with fault injection: the real runtime, drivers and buffer pool (io_uring provided-buffer ring on the simulated kernel, fallback pool on the polling driver); generated readers on pipes, Unix and TCP streams, UDP sockets and files run programs of managed reads, multishot streams dropped after a generated number of items and managed reads abandoned by drop / token / timeout around the arrival of their data, holding every buffer they get for a generated time; now and then a managed read is left pending when the runtime is dropped; the pool's memory comes from a counting allocator; pool sizes 1..16, buffer lengths 8..64; kernel faults (reordered, lazy and interrupted completions, tiny rings, CQ overflow, multishot termination, short transfers); oracles: live handles never overlap, held bytes never change, the simulated kernel never selects a buffer the program holds, received bytes are the next unread part of the peer's stream, after everything was released exactly pool-size buffers are obtainable and one more managed read and a multishot stream each report the exhausted pool within 20 ms, and every pool buffer is handed back to the allocator exactly once when pool, driver and runtime are gone; choice-sequence minimisation and replay",
         "tiers": {
             "quick": {"runs": 300_000, "time_limit_s": 60},
             "thorough": {"runs": 60_000_000, "time_limit_s": 1500},
@@ -386,7 +386,7 @@ PROPS = {
         "package": "check-k",
         "bin": "check-k",
         "design_ref": "§4, §7 C09",
-        "technique": "deterministic simulation with a discrete-event clock: the real compio runtime timer wheel and driver on the simulated io_uring kernel; clock_gettime is interposed, an idle io_uring_enter jumps simulated time to the nearest deadline it was given; generated sets of sleeps, past deadlines, timeouts around sleeps, dropped sleeps, intervals and I/O, with kernel faults (early EINTR returns, lazy completions, tiny rings); earliness, lateness, timeout-side, drift and leftover-timer oracles; choice-sequence minimisation and replay",
+        "technique": "deterministic simulation with a discrete-event clock: the real compio runtime timer wheel and driver on the simulated io_uring kernel; clock_gettime is interposed, an idle io_uring_enter jumps simulated time to the nearest deadline it was given; generated sets of sleeps, past deadlines, timeouts around sleeps, dropped sleeps, timers polled in one task and awaited in another, intervals (also starting in the future with the first tick abandoned) and I/O, with kernel faults (early EINTR returns, lazy completions, tiny rings); earliness, lateness, timeout-side, drift and leftover-timer oracles; choice-sequence minimisation and replay",
         "tiers": {
             "quick": {"runs": 6_000_000, "time_limit_s": 60},
             "thorough": {"runs": 200_000_000, "time_limit_s": 1500},
@@ -471,7 +471,7 @@ PROPS = {
         "package": "check-k",
         "bin": "check-k",
         "design_ref": "§4, §7 C20, §13.7",
-        "technique": "deterministic simulation with a scripted external process: the real compio-process, runtime and drivers (io_uring on the simulated ring, or polling) against a real child process (`kchild`) that does nothing on its own: every action (write N bytes to stdout/stderr without blocking, read what is available on stdin, close a stream, exit with a code, die from a signal) is an environment action of the run, sent over an inherited control socket and acknowledged before the action returns, so the child's visible behaviour is part of the choice sequence; volumes up to 200 KB (beyond the pipe capacity, so the child stalls until the parent reads), generated read/write chunk sizes 1..100000, both directions active at once, wait() at a generated instant or wait_with_output(); waitpid() is interposed so that the blocking wait job of the virtual pool lets the environment go on; transcript and exit-status oracles; kernel faults as in the other Engine K checks; choice-sequence minimisation and replay; hangs reported through the watchdog with a from-seed replay",
+        "technique": "deterministic simulation with a scripted external process: the real compio-process, runtime and drivers (io_uring on the simulated ring, or polling) against a real child process (`kchild`) that does nothing on its own: every action (write N bytes to stdout/stderr without blocking, read what is available on stdin, close a stream, exit with a code, die from a signal) is an environment action of the run, sent over an inherited control socket and acknowledged before the action returns, so the child's visible behaviour is part of the choice sequence; volumes up to 200 KB (beyond the pipe capacity, so the child stalls until the parent reads), generated read/write chunk sizes 1..100000, both directions active at once, wait() at a generated instant or wait_with_output(); the child ends at a generated instant or, like most real ones, only when it has got rid of all its output (those runs are multi-threaded runs, Engine M: the wait job on a pool thread of its own); waitpid() is interposed so that the blocking wait job lets the environment go on; transcript and exit-status oracles; kernel faults as in the other Engine K checks; choice-sequence minimisation and replay; hangs reported through the watchdog with a from-seed replay",
         "tiers": {
             "quick": {"runs": 100_000, "time_limit_s": 60},
             "thorough": {"runs": 30_000_000, "time_limit_s": 1500},
